@@ -122,6 +122,11 @@ def gen(rng, tier, quarantine=(), total=False, inv="C03.embeddings"):
     first = None
     for i in range(nprobes):
         sel = gen_selector(rng, total=total, quarantine=quarantine)
+        if i and rng.random() < 0.2:
+            # the very same selector text as the previous probe (compiled selectors are shared)
+            import copy
+
+            sel = copy.deepcopy([op for op in ops if op["op"] == "mk"][-1]["sels"][0])
         for lv in sel["levels"]:
             favoured.add(lv["fn"])
             for sb in msel.walk_sibs(lv):
@@ -163,6 +168,10 @@ def gen(rng, tier, quarantine=(), total=False, inv="C03.embeddings"):
                 "faults": gen_faults(rng, 60, rng.choice([0, 0, 0, 1, 2])),
             }
         )
+        if c == 0 and nprobes > 1 and rng.random() < 0.3:
+            # one of the probes ends, in any order; the others carry on
+            ops.append({"op": "exit", "id": f"p{rng.randrange(nprobes)}"})
+            ops.append(dict(ops[-2], tape=tree_tape(rng, rng.randint(4, tl), favoured, pc, 0.0), faults={}))
     return {"prog": "calltree", "ops": ops, "exact_failures": True}
 
 
